@@ -2,6 +2,7 @@ package main
 
 import (
 	"fmt"
+	"os"
 	"go/constant"
 	"go/token"
 	"go/types"
@@ -973,7 +974,18 @@ func edgeDominates(d *ssa.BasicBlock, succIdx int, b *ssa.BasicBlock) bool {
 }
 
 // guardsOf returns the branch conditions that dominate block b (innermost first).
-func guardsOf(b *ssa.BasicBlock) []Guard { return guardsOfD(b, 0) }
+var useDomGuards = os.Getenv("FPCHECK_DOMGUARDS") != ""
+
+// guardsOf: the branch outcomes that hold whenever b executes (path conditions, see pathcond.go); with
+// FPCHECK_DOMGUARDS=1 the older dominator-based computation is used instead (kept for comparison).
+func guardsOf(b *ssa.BasicBlock) []Guard {
+	if useDomGuards {
+		return guardsOfD(b, 0)
+	}
+	// only what holds on every path; the disjunction over the edges joining at b is added by reachConds where wanted
+	common, _ := pathGuards(b)
+	return common
+}
 
 func guardsOfD(b *ssa.BasicBlock, depth int) []Guard {
 	var out []Guard
